@@ -186,30 +186,57 @@ def r1_r3_r5(run: Run, rt):
             run.check(ok, 'C11.R3', f'{helper}[{cp.label}]/primitive', 'wrong-fold',
                       f'{helper} returns `{ast.unparse(final)[:50] if final is not None else "?"}`; expected {prim}(arguments)',
                       fact=f'{prim}(arguments)', loc=cp.loc(fn))
-        # COUNT = len of selections
+        # COUNT = number of elements of type-filtered selections: len(F1 + F2 + ..), len(F1) + len(F2) + .., or
+        # sum(len(g) for g in [F1, F2, ..]) -- locals that hold a selection are followed
         fn = cp.members.get('_count')
         if fn is not None:
             rets = sorted([n for n in ast.walk(fn) if isinstance(n, ast.Return)], key=lambda n: (n.lineno, n.col_offset))
             final = rets[-1].value if rets else None
-            ok = isinstance(final, ast.Call) and isinstance(final.func, ast.Name) and final.func.id == 'len'
-            run.check(ok, 'C11.R3', f'_count[{cp.label}]/primitive', 'wrong-fold', 'COUNT does not return a length', fact='len(...)',
-                      loc=cp.loc(fn))
-            if ok:
-                # every operand of the concatenation is a type filter of some argument
-                parts = []
+            local = {}
+            for st in ast.walk(fn):
+                if isinstance(st, ast.Assign) and len(st.targets) == 1 and isinstance(st.targets[0], ast.Name):
+                    local.setdefault(st.targets[0].id, []).append(st.value)
 
-                def flat(e):
-                    if isinstance(e, ast.BinOp) and isinstance(e.op, ast.Add):
-                        flat(e.left)
-                        flat(e.right)
-                    else:
-                        parts.append(e)
-                flat(final.args[0])
-                for p_ in parts:
-                    okp = isinstance(p_, ast.Call) and isinstance(p_.func, ast.Attribute) and p_.func.attr.startswith('_only_')
-                    run.check(okp, 'C11.R1', f'_count[{cp.label}]/{ast.unparse(p_)[:40]}', 'unfiltered-count',
-                              f'COUNT counts `{ast.unparse(p_)[:50]}` without a type filter', fact='type-filtered selection',
-                              loc=cp.loc(p_))
+            def res(e):
+                if isinstance(e, ast.Name) and len(local.get(e.id, [])) == 1:
+                    return res(local[e.id][0])
+                return e
+
+            def concat(e):
+                e = res(e)
+                if isinstance(e, ast.BinOp) and isinstance(e.op, ast.Add):
+                    return concat(e.left) + concat(e.right)
+                return [e]
+
+            def count_terms(e):
+                """the selections whose sizes are added up, or None when the expression is not a count"""
+                e = res(e)
+                if isinstance(e, ast.Call) and isinstance(e.func, ast.Name) and e.func.id == 'len' and len(e.args) == 1:
+                    return concat(e.args[0])
+                if isinstance(e, ast.BinOp) and isinstance(e.op, ast.Add):
+                    a, b = count_terms(e.left), count_terms(e.right)
+                    return None if a is None or b is None else a + b
+                if isinstance(e, ast.Call) and isinstance(e.func, ast.Name) and e.func.id == 'sum' and len(e.args) == 1 and \
+                        isinstance(e.args[0], (ast.GeneratorExp, ast.ListComp)) and len(e.args[0].generators) == 1:
+                    g_ = e.args[0].generators[0]
+                    elt = e.args[0].elt
+                    if isinstance(g_.target, ast.Name) and not g_.ifs and isinstance(elt, ast.Call) and isinstance(elt.func, ast.Name) and \
+                            elt.func.id == 'len' and ast.unparse(elt.args[0]) == g_.target.id:
+                        it = res(g_.iter)
+                        if isinstance(it, (ast.List, ast.Tuple)):
+                            out = []
+                            for x in it.elts:
+                                out += concat(x)
+                            return out
+                return None
+            terms = count_terms(final) if final is not None else None
+            run.check(terms is not None, 'C11.R3', f'_count[{cp.label}]/primitive', 'wrong-fold', 'COUNT does not return a number of '
+                      'selected elements (a length / a sum of lengths)', fact='len(...)', loc=cp.loc(fn))
+            for p_ in terms or []:
+                okp = isinstance(p_, ast.Call) and isinstance(p_.func, ast.Attribute) and p_.func.attr.startswith('_only_')
+                run.check(okp, 'C11.R1', f'_count[{cp.label}]/{ast.unparse(p_)[:40]}', 'unfiltered-count',
+                          f'COUNT counts `{ast.unparse(p_)[:50]}` without a type filter', fact='type-filtered selection',
+                          loc=cp.loc(p_))
 
 
 def _guarded_nonempty(fn, node) -> bool:
